@@ -39,12 +39,12 @@ def _quantised_u_linear(
     bias: Optional[Tensor],
     fwd_format_tuple: Tuple[int, int, str, int],
     bwd_format_tuple: Tuple[int, int, str, int],
-    constraint: Optional[str] = "to_output_scale",
+    **kwargs: Any,
 ) -> Tensor:
     fwd_format = tuple_to_format(fwd_format_tuple)
     bwd_format = tuple_to_format(bwd_format_tuple)
     input, weight = (fwd_format.quantise_fwd(t) for t in (input, weight))
-    output = U.linear(input, weight, bias, constraint)
+    output = U.linear(input, weight, bias, **kwargs)
     return bwd_format.quantise_bwd(output)
 
 
@@ -86,26 +86,52 @@ _replacement_map: Dict[Callable[..., Any], Callable[..., Any]] = {
 }
 
 
+# Names of the three tensor operands of the replaced functions, and of the parameters
+# that may follow them positionally
+_linear_operands = ("input", "weight", "bias")
+_attention_operands = ("query", "key", "value")
+_parameter_names: Dict[Callable[..., Any], Tuple[Tuple[str, ...], Tuple[str, ...]]] = {
+    F.linear: (_linear_operands, ()),
+    U.linear: (_linear_operands, ("constraint", "scale_power")),
+    F.scaled_dot_product_attention: (
+        _attention_operands,
+        ("attn_mask", "dropout_p", "is_causal", "scale", "enable_gqa"),
+    ),
+    U.scaled_dot_product_attention: (
+        _attention_operands,
+        ("attn_mask", "dropout_p", "is_causal", "mult"),
+    ),
+}
+
+
 def _replace_with_quantised(
     graph: Graph,
     node: Node,
     fwd_format: FPFormat,
     bwd_format: FPFormat,
 ) -> None:
+    assert callable(node.target)
+    operand_names, other_names = _parameter_names[node.target]
+    args, kwargs = [*node.args], dict(node.kwargs)
+    # The three tensor operands come first, however they were passed (bias is optional)
+    operands = args[:3]
+    for name in operand_names[len(operands) :]:
+        operands.append(kwargs.pop(name, None))
+    # Any further positional argument is passed on by keyword
+    others = args[3:]
+    if len(others) > len(other_names):
+        raise TypeError(f"too many positional arguments for {node.target}: {node}")
+    kwargs.update(zip(other_names, others))
     # Ideally we'd pass the formats as kwargs, but it currently causes a torch fx bug.
     # This workaround will suffice for now...
-    args = [*node.args]
-    if len(node.args) == 2:  # pragma: no cover
-        args.append(None)
     # Breaks when I pass in FPFormat objects, so convert to tuple and back
-    args = (
-        args[:3] + [format_to_tuple(fwd_format), format_to_tuple(bwd_format)] + args[3:]
-    )
+    args = operands + [format_to_tuple(fwd_format), format_to_tuple(bwd_format)]
 
-    assert callable(node.target)
     quantised_fn = _replacement_map[node.target]
     logger.info("quantising function: %s", node)
-    replace_node_with_function(graph, node, quantised_fn, args=tuple(args))
+    replace_node_with_function(
+        graph, node, quantised_fn, args=tuple(args), kwargs=kwargs
+    )
 
 
 def _quantisation_backend(fwd_format: FPFormat, bwd_format: FPFormat) -> Backend:
